@@ -31,6 +31,24 @@ func init() {
 		"(*sync.Map).Store":       intrSyncMapStore,
 		"(*sync.Map).Delete":      intrSyncMapDelete,
 		"(*sync.Map).Range":       intrSyncMapRange,
+		"(*sync.Map).LoadAndDelete": func(ex *Exec, fn *ssa.Function, a []Value, fr *Frame) Value {
+			m := ex.syncMap(a[0])
+			for i, e := range m.Entries {
+				if ex.branch(ex.valEq(e.Key, a[1])) {
+					m.Entries = append(append([]*MapEntry{}, m.Entries[:i]...), m.Entries[i+1:]...)
+					return TupleV{e.Val, ex.tb.True}
+				}
+			}
+			return TupleV{&IfaceV{}, ex.tb.False}
+		},
+		"(*sync.Map).LoadOrStore": func(ex *Exec, fn *ssa.Function, a []Value, fr *Frame) Value {
+			m := ex.syncMap(a[0])
+			if e := ex.mapFind(m, a[1]); e != nil {
+				return TupleV{e.Val, ex.tb.True}
+			}
+			m.Entries = append(m.Entries, &MapEntry{Key: a[1], Val: a[2]})
+			return TupleV{a[2], ex.tb.False}
+		},
 		"(*sync.Once).Do": func(ex *Exec, fn *ssa.Function, a []Value, fr *Frame) Value {
 			p := a[0].(*Pointer)
 			key := fmt.Sprintf("once:%d:%v", p.Obj.ID, p.Path)
